@@ -535,7 +535,27 @@ func (p c05) Run(w *mon.Worker, idx int) mon.Result {
 		return c05LongCase(w, r)
 	}
 	st := gen.GenYAML(r, gen.YDefault())
+	// byte-level variants of the generated text whose meaning is taken from the independent reader alone (the
+	// generator's own ground truth describes the text as generated)
+	mut := ""
+	plainStream := !st.ZeroDocs
+	for _, f := range st.Features() {
+		// (empty / comment-only documents and tags with nothing behind them have bookkeeping of their own in the generator's truth)
+		if f == "tag:explicit_empty" || strings.HasPrefix(f, "bound:empty_doc") || strings.HasPrefix(f, "bound:comment_only_doc") {
+			plainStream = false
+		}
+	}
+	switch {
+	case !plainStream:
+	case idx%10 == 4 && !st.ZeroDocs && strings.HasSuffix(st.Text, "\n") && !strings.HasSuffix(st.Text, "\n\n"):
+		st.Text, mut = st.Text[:len(st.Text)-1], "no_final_newline"
+	case idx%10 == 9 && !st.ZeroDocs && !strings.Contains(st.Text, "#") && !strings.HasPrefix(st.Text, "-") && !strings.HasPrefix(st.Text, "%") && !strings.Contains(st.Text, "\r"):
+		st.Text, mut = strings.ReplaceAll(st.Text, "\n", "\r"), "cr_line_breaks"
+	}
 	feats := st.Features()
+	if mut != "" {
+		feats = append(feats, "mutation:"+mut)
+	}
 	res := mon.Result{Case: map[string]any{"text": st.Text, "features": feats}}
 	tags := map[string]bool{}
 	for _, f := range feats {
@@ -561,6 +581,9 @@ func (p c05) Run(w *mon.Worker, idx int) mon.Result {
 		tags["generator_disagreement"] = true
 		tags["generator_disagreement:rejected"] = true
 		return finish()
+	}
+	if mut != "" {
+		truth = in
 	}
 	if why := c05TruthDisagreement(truth, in); why != "" {
 		res.Verdict, res.Detail = mon.Inconclusive, "generator disagreement: "+why
